@@ -555,6 +555,11 @@ def obligations(tier):
         return pairs
     add("_cmtf_als:coupled_matrix_tensor_3d_factorization", "plain", cm_setup, lambda I: run_cm(I, (0, 1)), cm_post, dict(options="plain"),
         clause="reported value ≡ documented squared error of the iterate it belongs to")
+    # ====================================================================== bounded stand-in (never counted as proved): end-to-end native survey - the real
+    # entry points, unstubbed, on seeded tensors; a cross-check of the composed contracts on what they assume away (degenerate data, option combinations)
+    from .c09 import BoundedOb
+    from . import e2e_native
+    obs.append(BoundedOb(f"{PID}/bounded/native survey: reported errors are finite and the last one is the error of the returned decomposition", "tensorly.decomposition:parafac+tucker+non_negative_parafac+non_negative_parafac_hals+non_negative_tucker+non_negative_tucker_hals", lambda: e2e_native.c06_c07(tier, "C06"), dict(orders="2-3 (4 thorough)", data="generic, non-negative, integer, exactly low-rank", budgets="1, 2, 8"), "seed 0; tolerance 1e-6 max(1, error)", pid=PID))
     return obs
 
 
